@@ -273,6 +273,7 @@ func Own[T any](b *T, who int) {
 }
 
 func Release[T any](b *T, who int) {
+	runtime.Gosched() // let the others run while the buffer is still held
 	mu.Lock()
 	if owners[b] == who {
 		delete(owners, b)
